@@ -51,9 +51,9 @@ def _collect(paths, R, allowed_fn):
 
 
 def _task(X):
-    P, R, table, var, loop, stubs = _CTX
+    P, R, table, var, loop, stubs = _CTX[:6]
     # the header path itself is analysed with 0..2 option pairs by C11-R2; here one abstract pair suffices
-    H = ReaderHarness(P, R, havoc=True, stub_content=False, unknown_iters=(1,))
+    H = ReaderHarness(P, R, havoc=True, stub_content=False, unknown_iters=_CTX[6])
     H.extra_stubs = stubs
     preds = [p for p in SPEC_IDS if X in table.get(p, ())]
     row = frozenset(['diffx']) if X == 'diffx' else frozenset(table[preds[0]])
@@ -123,7 +123,7 @@ def run(P, rep, tier):
     loop = main_loop(R)
     stubs = summary.stubs_for(P, summary.text_utils(P))
     global _CTX
-    _CTX = (P, R, table, var, loop, stubs)
+    _CTX = (P, R, table, var, loop, stubs, (1,) if tier == 'quick' else (0, 1, 2))
     from sa.par import pmap
     results = pmap(_task, list(SPEC_IDS))
     r1 = rep.rule('C08-R1a', 'streaming reader: only DiffXParseError can escape (per section id, one iteration from any state)', reference=60)
